@@ -465,20 +465,55 @@ func ruleDotFailAndPrune(rule string) RuleFn {
 				if !ok || an.FieldName(fa.X.Type(), fa.Field) != "ErrorType" {
 					return
 				}
-				k, ok := st.Val.(*ssa.Const)
-				if !ok || k.Value == nil || k.Value.String() != "2" {
-					return // rootCause (1) may always be stored
-				}
 				n++
 				owner := an.Norm(fa.X)
 				guard := an.EdgesWhere(fn, func(ft an.Fact) bool {
 					return ft.S == "("+owner+".ErrorType != 1)" || ft.S == "!("+owner+".ErrorType == 1)"
 				})
-				hit, _ := an.PathTo(fn, nil, an.IsInstr(st), an.NewGates().AddEdges(guard...))
-				c.Check(hit == nil && len(guard) > 0, rule, nm+" never demotes the root cause ("+owner+")", "ErrorType = transitiveFailure only if ErrorType != rootCause", "a node already marked as root cause can be overwritten with transitiveFailure: when the failing constructor is mentioned twice in the error chain the picture ends up without any root-cause constructor", st, nil)
+				// is there a path on which the value stored IS transitiveFailure (2) and no "ErrorType != rootCause"
+				// edge was crossed? Path-sensitive: phi values are followed along the path, and two tests of the same
+				// boolean (isRootCause at the assignment and inside a helper that picks the value) agree
+				is2 := func(v ssa.Value) bool {
+					k, ok := v.(*ssa.Const)
+					return ok && k.Value != nil && k.Value.String() == "2"
+				}
+				mayBe2 := false
+				var seenV func(v ssa.Value, seen map[ssa.Value]bool)
+				seenV = func(v ssa.Value, seen map[ssa.Value]bool) {
+					if seen[v] {
+						return
+					}
+					seen[v] = true
+					if is2(v) {
+						mayBe2 = true
+					}
+					if ph, ok := v.(*ssa.Phi); ok {
+						for _, e := range ph.Edges {
+							seenV(e, seen)
+						}
+					}
+				}
+				seenV(st.Val, map[ssa.Value]bool{})
+				good := true
+				if mayBe2 {
+					r := an.PathSens(an.PSQuery{Fn: fn, Gates: an.NewGates().AddEdges(guard...), Target: func(in ssa.Instruction, env *an.PEnv) bool {
+						if in != ssa.Instruction(st) {
+							return false
+						}
+						v := env.Val(st.Val)
+						if _, stillPhi := v.(*ssa.Phi); stillPhi {
+							return true // undetermined on this path: assume the worst
+						}
+						return is2(v)
+					}})
+					if r.Found != nil || r.Overflow || len(guard) == 0 {
+						good = false
+					}
+				}
+				c.Check(good, rule, nm+" never demotes the root cause ("+owner+")", "ErrorType = transitiveFailure only if ErrorType != rootCause", "a node already marked as root cause can be overwritten with transitiveFailure: when the failing constructor is mentioned twice in the error chain the picture ends up without any root-cause constructor", st, nil)
 			})
 			if n == 0 {
-				c.Und(rule, nm+" marks transitive failures", "no store of transitiveFailure into an ErrorType field found")
+				c.Und(rule, nm+" marks failures", "no store into an ErrorType field found")
 			}
 		}
 		if fn := c.Fn(rule, "(*dig/internal/dot.Graph).pruneCtors"); fn != nil {
@@ -610,6 +645,15 @@ func ruleComparableErrors(rule string) RuleFn {
 // taOK reports whether v is the ok result of a comma-ok type assertion (also the ones a type switch is made of) to
 // the dig type named typ (value or pointer).
 func taOK(v ssa.Value, typ string) bool {
+	if ph, isPhi := v.(*ssa.Phi); isPhi && len(ph.Edges) > 0 {
+		// the same assertion made before a loop and at the end of its body
+		for _, e := range ph.Edges {
+			if _, again := e.(*ssa.Phi); again || !taOK(e, typ) {
+				return false
+			}
+		}
+		return true
+	}
 	ex, ok := v.(*ssa.Extract)
 	if !ok || ex.Index != 1 {
 		return false
@@ -957,5 +1001,87 @@ func ruleGroupFailureOrder(rule string) RuleFn {
 			}
 		}
 		c.Check(!early, rule, "callGroupProviders calls the members of a group independently of their registration order", "no return from inside the provider loop", "callGroupProviders stops at the first failing member: with one working and one broken member the Invoke of the group fails either way, but whether the working member has run (and a later soft consumer sees its value, or a later Invoke of one of its other results finds it cached) depends on which of the two was provided first", nil, nil)
+	}
+}
+
+// ruleVizFresh (X-viz-fresh, C19).
+func ruleVizFresh(rule string) RuleFn {
+	return func(c *an.Ctx) {
+		c.Rule(rule, "X-viz-fresh: the picture is built from the container as it is NOW: the graph Visualize renders is made by dot.NewGraph() during that very call and filled by addNodes from every scope - Scope.createGraph returns a graph that originates from a NewGraph call in its own body, never one read from a field. A kept graph is a second copy of Scope.nodes that every accepted Provide in every scope of the subtree would have to invalidate")
+		fn := c.Fn(rule, "(*dig.Scope).createGraph")
+		if fn == nil {
+			return
+		}
+		good, why := true, ""
+		nret := 0
+		an.Instrs(fn, func(in ssa.Instruction) {
+			r, ok := in.(*ssa.Return)
+			if !ok || len(r.Results) != 1 {
+				return
+			}
+			nret++
+			for _, o := range an.Origins(r.Results[0]) {
+				k, isCall := o.(*ssa.Call)
+				if !isCall || !strings.HasSuffix(an.CalleeName(k), "dot.NewGraph") {
+					good, why = false, "createGraph can return "+an.Norm(o)+", which is not a graph made by dot.NewGraph() in this call"
+				}
+			}
+		})
+		if nret == 0 {
+			good, why = false, "createGraph returns nothing"
+		}
+		// and it fills it
+		if len(an.CallsNamed(fn, "(*dig.Scope).addNodes")) == 0 {
+			good, why = false, "createGraph does not fill the graph with addNodes"
+		}
+		c.Check(good, rule, "createGraph builds a fresh graph on every call", "dg := dot.NewGraph(); s.addNodes(dg); return dg", why+": a constructor accepted (in any scope of the subtree) after an earlier Visualize is missing from every later picture unless each such Provide invalidates the kept graph of every ancestor", nil, nil)
+	}
+}
+
+// ruleSavedOnce (E-ATOM saved-once, C06).
+func ruleSavedOnce(rule string) RuleFn {
+	return func(c *an.Ctx) {
+		c.Rule(rule, "E-ATOM (saved once): the provider list Scope.provide saves for the roll-back of a cycle rejection is the list from BEFORE the new constructor was appended, for every key: the loop that saves and appends visits every key exactly once - it ranges over a map (a set of keys), or saves only when nothing was saved for that key yet. Ranging over a list in which a value-group key can occur twice (a result object feeding one group from two fields) saves, the second time, a list that already contains the rejected constructor")
+		fn := c.Fn(rule, "(*dig.Scope).provide")
+		if fn == nil {
+			return
+		}
+		n := 0
+		an.Instrs(fn, func(in ssa.Instruction) {
+			mu, ok := in.(*ssa.MapUpdate)
+			if !ok {
+				return
+			}
+			// the save: local map[key][]*constructorNode updated with a read of Scope.providers
+			mk, isMake := an.Resolve(mu.Map).(*ssa.MakeMap)
+			if !isMake || !strings.Contains(mk.Type().String(), "constructorNode") || !strings.Contains(an.Norm(mu.Value), ".providers[") {
+				return
+			}
+			n++
+			good := false
+			// (a) the key comes from ranging over a map
+			for _, o := range an.Origins(mu.Key) {
+				if ex, ok := o.(*ssa.Extract); ok {
+					if nx, ok := ex.Tuple.(*ssa.Next); ok && !nx.IsString {
+						if rg, ok := nx.Iter.(*ssa.Range); ok {
+							if _, isMap := rg.X.Type().Underlying().(*types.Map); isMap {
+								good = true
+							}
+						}
+					}
+				}
+			}
+			// (b) or the save is guarded by "nothing saved yet"
+			if !good {
+				guard := an.EdgesWhere(fn, func(ft an.Fact) bool {
+					return strings.HasPrefix(ft.S, "!") && strings.HasSuffix(ft.S, "#1") && strings.Contains(ft.S, "makemap")
+				})
+				if hit, _ := an.PathTo(fn, nil, an.IsInstr(mu), an.NewGates().AddEdges(guard...)); hit == nil && len(guard) > 0 {
+					good = true
+				}
+			}
+			c.Check(good, rule, "provide saves the old provider list of a key once, before appending", "range over the key set", "the save can run twice for one key (the keys are a list, and a value-group key may occur in it twice): the second save already contains the new constructor, the roll-back of a cycle rejection puts the rejected constructor back into Scope.providers while its graph node is gone - it is executed later, or the next Invoke panics in the cycle check with an index out of range", mu, nil)
+		})
+		c.Floor(rule, "saves of old provider lists in provide", n, 1)
 	}
 }
